@@ -161,12 +161,28 @@ def run_file(case, res):
                 os.fsync(wf.fileno())
             warm = [wp]
             res["counters"]["mapped-after-another-file"] = 1
-        r = subprocess.run([PROBE_BIN["probe_fs"], "map", path] + warm, capture_output=True, timeout=120)
-        if r.returncode != 0:
-            res["inconc"].append("probe-failed")
-            res["trace"] = r.stderr.decode("latin-1")[-500:]
-            return
-        j = json.loads(r.stdout.decode())
+        seekfault = 0
+        if not warm and case.get("seed", 0) % 4 == 1 and case["segs"]:
+            # one data/hole search is refused (EINVAL: a filesystem or filter without SEEK_DATA / SEEK_HOLE): a search that got no answer
+            # is no "the rest is a hole"
+            seekfault = 1 + case["seed"] % 3
+            run = core.run_supervised(sb, [PROBE_BIN["probe_fs"], "map", path], {"log_mode": "none", "rules": [{"id": "k", "sys": "lseek", "under": sb.root + "/", "action": "fault", "errno": 22, "nth": seekfault}]})
+            if run.verdict != "exited" or run.status != 0:
+                res["inconc"].append("probe-failed")
+                return
+            if not run.rule("k")["applied"]:
+                seekfault = 0
+            else:
+                res["counters"]["runs-with-a-refused-seek"] = 1
+            out_ = run.stdout
+        else:
+            r = subprocess.run([PROBE_BIN["probe_fs"], "map", path] + warm, capture_output=True, timeout=120)
+            if r.returncode != 0:
+                res["inconc"].append("probe-failed")
+                res["trace"] = r.stderr.decode("latin-1")[-500:]
+                return
+            out_ = r.stdout.decode()
+        j = json.loads(out_)
         written = case["segs"] if case["segs"] is not None else [[0, case["size"]]]
         tag = "fs=%s size=%d segments=%d synced=%s first=%s" % (case["fs"], case["size"], len(written), case["sync"], written[:2])
         maps = 0
@@ -185,7 +201,9 @@ def run_file(case, res):
                     ex = j["extents"]
                     if any(ex[k][0] == ex[k - 1][1] for k in range(32, len(ex), 32)):
                         res["counters"]["files-with-extents-touching-at-a-page-boundary"] = 1
-        if j["seg_err"]:
+        if j["seg_err"] and seekfault:
+            res["counters"]["refused-seek-reported-as-error"] = 1
+        elif j["seg_err"]:
             res["viol"].append({"sig": "segments:error", "what": "next_sparse_segments iteration failed: %s; %s" % (j["seg_err"], tag)})
         else:
             check_ranges("segments", j["segments"], case["size"], written, path, res, tag)
